@@ -434,7 +434,7 @@ def unit_add_clock():
 def unit_frame_rule():
     """Syntactic frame check on generated run() bodies: slots are read only as `slots[k].curr` or
     `slots[k].next` (the latter only for the process's own outputs), and written only through
-    `slots[k].update(<name>, <int literal>)` / `.write(...)`; memory is read only through `.read(...)`."""
+    `slots[k].update(<own next_k variable or int literal>, <int literal>)` / `.write(...)`; memory is read only through `.read(...)`."""
     from amaranth.lib.fifo import SyncFIFO, SyncFIFOBuffered, AsyncFIFO
     from amaranth.lib.cdc import PulseSynchronizer
     from amaranth.hdl import Module, ClockDomain
@@ -458,8 +458,15 @@ def unit_frame_rule():
                     idx = node.func.value.slice.value
                     if node.func.attr == "update":
                         updated.add(idx)
-                        if not (len(node.args) == 2 and isinstance(node.args[0], ast.Name) and node.args[0].id == f"next_{idx}"
-                                and isinstance(ast.literal_eval(node.args[1]), int)):
+                        def _int_literal(n):
+                            try:
+                                return isinstance(ast.literal_eval(n), int)
+                            except Exception:
+                                return False
+                        # the value written is the process's own `next_<k>` variable or an integer literal (a reset value);
+                        # the mask is an integer literal
+                        first_ok = (isinstance(node.args[0], ast.Name) and node.args[0].id == f"next_{idx}") or _int_literal(node.args[0])
+                        if not (len(node.args) == 2 and first_ok and _int_literal(node.args[1])):
                             bad.append(ast.unparse(node))
                     elif node.func.attr not in ("read", "write"):
                         bad.append(ast.unparse(node))
